@@ -31,8 +31,8 @@ from .corpus import CORPUS
 
 PROP = "C14"
 FEATURE_SETS = ("full",)
-GRAMMARS = ["g1", "c1", "p1", "hd", "c2"]
-TYPED = ["", "-", "--", "--a", "--al", "--be", "--n", "--zz", "-a", "-b", "-n", "a", "ad", "r", "m", "zz", "--beta=", "-b="]
+GRAMMARS = ["g1", "c1", "p1", "hd", "c2", "f1", "f2"]
+TYPED = ["", "-", "--", "--a", "--al", "--be", "--n", "--zz", "-a", "-b", "-n", "a", "ad", "r", "m", "c", "zz", "--st", "--beta=", "-b="]
 
 
 def typed_word(ex, text):
